@@ -12,3 +12,187 @@ Proof.
   destruct (lookup s h p) eqn:L; [reflexivity|].
   cbn [exec r_host r_port]. rewrite L. reflexivity.
 Qed.
+
+(* ---------- TOFUDatabase.verify ---------- *)
+Lemma verify_tie : forall s h p fp now,
+  gen_verify s h p fp now = (snd (verify s h p fp), Ok (verdict_py (fst (verify s h p fp)))).
+Proof.
+  intros. unfold gen_verify, verify. cbv zeta.
+  destruct (lookup s h p) as [r|]; [|reflexivity].
+  destruct (eqb (r_fp r) fp); reflexivity.
+Qed.
+
+(* ---------- revoke / revoke_by_hostname / clear / get_host_info ---------- *)
+Lemma filter_find_pos {A} (f : A -> bool) (l : list A) :
+  Nat.ltb 0 (length (filter f l)) = match find f l with Some _ => true | None => false end.
+Proof. induction l as [|a l IH]; [reflexivity|]. cbn [filter find]. destruct (f a); [reflexivity|exact IH]. Qed.
+
+Lemma revoke_tie : forall s h p,
+  gen_revoke s h p = ([SDelete h p; SCommit], Ok (match lookup s h p with Some _ => true | None => false end)).
+Proof. intros. unfold gen_revoke, lookup. rewrite <- filter_find_pos. reflexivity. Qed.
+
+Lemma revoke_by_hostname_tie : forall s h,
+  gen_revoke_by_hostname s h = ([SDeleteHost h; SCommit], Ok (length (filter (fun r => eqb h (r_host r)) s))).
+Proof. reflexivity. Qed.
+
+Lemma clear_tie : forall s, gen_clear s = ([SDeleteAll; SCommit], Ok (length s)).
+Proof. reflexivity. Qed.
+
+Lemma get_host_info_tie : forall s h p, gen_get_host_info s h p = ([], Ok (lookup s h p)).
+Proof. intros. unfold gen_get_host_info. cbv zeta. destruct (lookup s h p); reflexivity. Qed.
+
+(* ---------- the TOFU block of the session ---------- *)
+Lemma session_block s h p c now :
+  forall G, G = gen_get_single_tofu \/ G = gen_upload_tofu ->
+  G (fun s h p c => gen_verify s h p c now) gen_get_host_info (fun s h p c => gen_trust s h p c now) s h p c
+  = (fst (tofu_check s h p (presented_of c) now), outcome_of h p (snd (tofu_check s h p (presented_of c) now))).
+Proof.
+  intros G [-> | ->]; unfold gen_get_single_tofu, gen_upload_tofu; cbv zeta;
+    (destruct c as [fp|]; [|reflexivity]);
+    rewrite verify_tie; unfold tofu_check, presented_of, verify;
+    (destruct (lookup s h p) as [r|] eqn:L;
+     [destruct (eqb (r_fp r) fp); [reflexivity|];
+      cbn [snd fst verdict_py negb andb]; rewrite get_host_info_tie;
+      change (db_run s []) with s; rewrite L; reflexivity
+     |cbn [snd fst verdict_py negb andb]; rewrite trust_tie; reflexivity]).
+Qed.
+
+(* ---------- TOFUDatabase._validate_fingerprint ---------- *)
+Lemma match_items_lit p rest s :
+  match_items (re_lit p ++ rest) s = if prefixb p s then match_items rest (drop (length p) s) else None.
+Proof.
+  revert s; induction p as [|x p IH]; intro s; [reflexivity|].
+  cbn [re_lit map app match_items match_rep atom_ok prefixb length drop].
+  destruct s as [|c s]; [reflexivity|].
+  destruct (N.eqb x c); [apply IH|reflexivity].
+Qed.
+
+Lemma match_rep_full a n d :
+  match match_rep a n d with Some [] => true | _ => false end = Nat.eqb (length d) n && forallb (atom_ok a) d.
+Proof.
+  revert d; induction n as [|n IH]; intros [|c d]; cbn [match_rep length Nat.eqb forallb andb]; try reflexivity.
+  destruct (atom_ok a c); cbn [andb]; [apply IH|]. now rewrite andb_false_r.
+Qed.
+
+Lemma forallb_ext' {A} (f g : A -> bool) l : (forall a, f a = g a) -> forallb f l = forallb g l.
+Proof. intro H. induction l as [|a l IH]; [reflexivity|]. cbn [forallb]. now rewrite H, IH. Qed.
+
+Definition fp_items : list (ratom * nat) := re_lit (lit "sha256:") ++ [(RClass [(48%N, 57%N); (97%N, 102%N)], 64)].
+Definition fp_shape (l : str) : bool :=
+  prefixb (lit "sha256:") l && Nat.eqb (length (drop 7 l)) 64
+  && forallb (fun c => is_digit c || ((97 <=? c)%N && (c <=? 102)%N)) (drop 7 l).
+
+Lemma fullmatch_fp l : fullmatch fp_items l = fp_shape l.
+Proof.
+  unfold fullmatch, fp_items, fp_shape. rewrite match_items_lit.
+  change (length (lit "sha256:")) with 7.
+  destruct (prefixb (lit "sha256:") l); [|reflexivity]. cbn [andb match_items].
+  generalize (drop 7 l) as d. intro d.
+  assert (E : match match_rep (RClass [(48%N, 57%N); (97%N, 102%N)]) 64 d with Some r => Some r | None => None end
+              = match_rep (RClass [(48%N, 57%N); (97%N, 102%N)]) 64 d) by (destruct (match_rep _ _ d); reflexivity).
+  rewrite E, match_rep_full. f_equal. apply forallb_ext'. intro c.
+  unfold atom_ok, is_digit. cbn [existsb fst snd]. now rewrite orb_false_r.
+Qed.
+
+Lemma lower_ch_lf c : N.eqb (lower_ch c) 10 = N.eqb c 10.
+Proof.
+  unfold lower_ch, is_upper. destruct ((65 <=? c)%N && (c <=? 90)%N) eqn:E; [|reflexivity].
+  apply andb_true_iff in E as [E1 E2]. apply N.leb_le in E1, E2.
+  transitivity false; [apply N.eqb_neq; lia|symmetry; apply N.eqb_neq; lia].
+Qed.
+
+Lemma ends_lf_lower s : ends_lf (lower s) = ends_lf s.
+Proof. unfold ends_lf, lower. rewrite <- map_rev. destruct (rev s) as [|c r]; [reflexivity|]. apply lower_ch_lf. Qed.
+
+Lemma removelast_lower s : removelast (lower s) = lower (removelast s).
+Proof.
+  unfold lower. induction s as [|c s IH]; [reflexivity|].
+  destruct s as [|c' s]; [reflexivity|]. cbn [map removelast] in *. now rewrite IH.
+Qed.
+
+(* the tie the model suggests, `gen_validate_fingerprint fp = fp_valid fp`, is FALSE: the `$` of the pattern accepts a
+   final line feed (witness below; the real _validate_fingerprint returns True on it).  What holds: *)
+Lemma validate_fingerprint_tie_partial : forall fp,
+  gen_validate_fingerprint fp = fp_valid fp || (ends_lf fp && fp_valid (removelast fp)).
+Proof.
+  intro fp. unfold gen_validate_fingerprint. cbv zeta. unfold re_match_anchored.
+  change (re_lit (lit "sha256:") ++ [(RClass [(48%N, 57%N); (97%N, 102%N)], 64)]) with fp_items.
+  rewrite !fullmatch_fp, ends_lf_lower, removelast_lower.
+  change (fp_shape (lower fp)) with (fp_valid fp). change (fp_shape (lower (removelast fp))) with (fp_valid (removelast fp)).
+  destruct (fp_valid fp || _); reflexivity.
+Qed.
+
+Lemma validate_fingerprint_tie_no_lf : forall fp, ends_lf fp = false -> gen_validate_fingerprint fp = fp_valid fp.
+Proof. intros fp H. rewrite validate_fingerprint_tie_partial, H. apply orb_false_r. Qed.
+
+Definition fp_counterexample : str := lit "sha256:" ++ repeat 97%N 64 ++ [10%N].
+Lemma validate_fingerprint_tie_false :
+  gen_validate_fingerprint fp_counterexample = true /\ fp_valid fp_counterexample = false.
+Proof. split; vm_compute; reflexivity. Qed.
+
+(* ---------- TOFUDatabase.import_toml: the transaction (optional DELETE, the per-entry loop, COMMIT) ---------- *)
+Lemma port_check (i : bool) (x : Z) :
+  negb i || negb ((1 <=? x)%Z && (x <=? 65535)%Z) = negb i || (x <? 1)%Z || (65535 <? x)%Z.
+Proof. rewrite negb_andb, orb_assoc, (Z.ltb_antisym 1 x), (Z.ltb_antisym x 65535). reflexivity. Qed.
+
+Definition validates_like_model (validate : str -> bool) (ke : str * pyentry) : Prop :=
+  validate (pe_fp (snd ke)) = fp_valid (pe_fp (snd ke)).
+
+Lemma import_toml_tie_gen : forall validate cb s merge es now,
+  Forall (validates_like_model validate) es ->
+  obs (gen_import_toml validate s merge cb es now) = import_stmts cb s merge (to_entries es).
+Proof.
+  intros validate cb s merge es now HF. unfold gen_import_toml, import_stmts. cbv beta iota zeta fix.
+  revert HF.
+  destruct merge; cbn [negb exec];
+  match goal with |- _ -> obs (?F es ?q0 ?w0 0 0 0) = _ =>
+    enough (E : forall es, Forall (validates_like_model validate) es ->
+                forall q w a k u, obs (F es q w a k u) = import_loop cb w (to_entries es) q) by (intro HF; apply E, HF) end;
+  clear; (induction es as [|[key e] es IH]; intros HF q w a k u; [reflexivity|]);
+  inversion HF as [|x l Hx Hl]; subst; unfold validates_like_model in Hx; cbn [snd] in Hx; specialize (IH Hl);
+  change (to_entries ((key, e) :: es)) with (to_entry e :: to_entries es);
+  cbn [import_loop to_entry e_complete e_port e_port_is_int e_fp e_host e_first forallb];
+  repeat (match goal with |- context [has_key e ?f] => destruct (has_key e f) end; cbn [negb andb]; [|reflexivity]);
+  rewrite port_check, Hx;
+  (destruct (_ || _ || _); [reflexivity|]);
+  (destruct (fp_valid (pe_fp e)); cbn [negb]; [|reflexivity]);
+  (destruct (lookup w (pe_host e) (Z.to_N (dv (pe_port e)))) as [r|] eqn:L;
+   [|cbn [exec r_host r_port]; rewrite L; apply IH]);
+  (destruct (eqb (r_fp r) (pe_fp e)); [apply IH|]);
+  (destruct cb as [f|]; [|apply IH]);
+  (destruct (f _ _ _ _); [cbn [exec]; apply IH|apply IH|reflexivity]).
+Qed.
+
+(* with the model's fp_valid for the callee self._validate_fingerprint: exact *)
+Lemma import_toml_tie : forall cb s merge es now,
+  obs (gen_import_toml fp_valid s merge cb es now) = import_stmts cb s merge (to_entries es).
+Proof. intros. apply import_toml_tie_gen. apply Forall_forall. intros x _. reflexivity. Qed.
+
+(* with the code's own _validate_fingerprint: only for files without a fingerprint that ends in a line feed *)
+Lemma import_toml_code_tie_partial : forall cb s merge es now,
+  Forall (fun ke => ends_lf (pe_fp (snd ke)) = false) es ->
+  obs (gen_import_toml gen_validate_fingerprint s merge cb es now) = import_stmts cb s merge (to_entries es).
+Proof.
+  intros cb s merge es now H. apply import_toml_tie_gen. revert H. apply Forall_impl.
+  intros ke H. apply validate_fingerprint_tie_no_lf, H.
+Qed.
+
+Definition import_counterexample : list (str * pyentry) :=
+  [(lit "h:1965", {| pe_keys := [lit "hostname"; lit "port"; lit "fingerprint"; lit "first_seen"; lit "last_seen"];
+                     pe_host := lit "h"; pe_port := {| dv := 1965; dv_is_int := true |};
+                     pe_fp := fp_counterexample; pe_first := lit "x" |})].
+Lemma import_toml_code_tie_false :
+  obs (gen_import_toml gen_validate_fingerprint [] true None import_counterexample [])
+  = ([SInsert {| r_host := lit "h"; r_port := 1965; r_fp := fp_counterexample; r_first := lit "x" |}; SCommit], true)
+  /\ import_stmts None [] true (to_entries import_counterexample) = ([], false).
+Proof. split; vm_compute; reflexivity. Qed.
+
+Lemma get_single_tofu_tie : forall s h p c now,
+  gen_get_single_tofu (fun s h p c => gen_verify s h p c now) gen_get_host_info (fun s h p c => gen_trust s h p c now) s h p c
+  = (fst (tofu_check s h p (presented_of c) now), outcome_of h p (snd (tofu_check s h p (presented_of c) now))).
+Proof. intros. apply session_block. left. reflexivity. Qed.
+
+Lemma upload_tofu_tie : forall s h p c now,
+  gen_upload_tofu (fun s h p c => gen_verify s h p c now) gen_get_host_info (fun s h p c => gen_trust s h p c now) s h p c
+  = (fst (tofu_check s h p (presented_of c) now), outcome_of h p (snd (tofu_check s h p (presented_of c) now))).
+Proof. intros. apply session_block. right. reflexivity. Qed.
